@@ -2,12 +2,14 @@ package main
 
 import (
 	"bufio"
+	"bytes"
 	"encoding/json"
 	"flag"
 	"fmt"
 	"io/ioutil"
 	"os"
 
+	"pikeverif/cases"
 	"pikeverif/world"
 )
 
@@ -65,6 +67,53 @@ func cmdReplay(args []string) {
 	}
 }
 
+func readLines(path string) []json.RawMessage {
+	data, err := ioutil.ReadFile(path)
+	if err != nil {
+		fatal("%v", err)
+	}
+	var res []json.RawMessage
+	for _, line := range bytes.Split(data, []byte("\n")) {
+		if len(bytes.TrimSpace(line)) > 0 {
+			res = append(res, json.RawMessage(append([]byte{}, line...)))
+		}
+	}
+	return res
+}
+
+func cmdCases(args []string) {
+	fs := flag.NewFlagSet("cases", flag.ExitOnError)
+	kind := fs.String("kind", "", "decision table")
+	in := fs.String("in", "", "cases ndjson")
+	out := fs.String("out", "", "observations ndjson")
+	_ = fs.Parse(args)
+	raws := readLines(*in)
+	w := world.New()
+	var obs []interface{}
+	var err error
+	switch *kind {
+	case "cacheability":
+		obs, err = cases.Cacheability(w, raws)
+	default:
+		fatal("unknown kind %s", *kind)
+	}
+	if err != nil {
+		fatal("%v", err)
+	}
+	f, err := os.Create(*out)
+	if err != nil {
+		fatal("%v", err)
+	}
+	bw := bufio.NewWriter(f)
+	for _, o := range obs {
+		b, _ := json.Marshal(o)
+		bw.Write(b)
+		bw.WriteByte('\n')
+	}
+	bw.Flush()
+	f.Close()
+}
+
 func main() {
 	if len(os.Args) < 2 {
 		fatal("usage: pikeharness <cmd> ...")
@@ -72,6 +121,8 @@ func main() {
 	switch os.Args[1] {
 	case "replay":
 		cmdReplay(os.Args[2:])
+	case "cases":
+		cmdCases(os.Args[2:])
 	default:
 		fatal("unknown command %s", os.Args[1])
 	}
